@@ -3,6 +3,7 @@ package main
 // Translation of contract expressions (Go expression syntax + call-form logic) to SMT.
 
 import (
+	"sort"
 	"fmt"
 	"go/ast"
 	"go/constant"
@@ -27,6 +28,7 @@ type SpecEnv struct {
 	cur     *State // the current path state when st has been switched to a snapshot/old/head state
 	head    *State // state at the head of the enclosing loop iteration (for head(e))
 	inUse   bool   // evaluating a `use` clause: axiom schemata may be expanded
+	nbind   int    // number of enclosing quantifiers (kept across spec applications)
 }
 
 func (e *SpecEnv) with(name string, t Term) *SpecEnv {
@@ -36,6 +38,7 @@ func (e *SpecEnv) with(name string, t Term) *SpecEnv {
 		n.bound[k] = v
 	}
 	n.bound[name] = t
+	n.nbind = e.nbind + 1
 	return &n
 }
 
@@ -813,7 +816,62 @@ func (e *SpecEnv) call(n *ast.CallExpr) Term {
 		}
 		e.stale("str() of a non-slice")
 	case "alloc":
+		if x.memReads != nil {
+			x.memReads["alloc!"] = e.st.alloc
+		}
 		return e.st.alloc
+	case "same":
+		// same(mapof(m)) / same(elems(s)) / same(p.f): the whole memory of that kind is what it was in the old state
+		argN(1)
+		if e.old == nil {
+			e.stale("same() not available here")
+		}
+		var keys []string
+		switch a := n.Args[0].(type) {
+		case *ast.CallExpr:
+			id, _ := a.Fun.(*ast.Ident)
+			if id == nil || len(a.Args) != 1 || (id.Name != "mapof" && id.Name != "elems") {
+				e.stale("same(mapof(m)), same(elems(s)) or same(p.f)")
+			}
+			t := e.expr(a.Args[0])
+			if t.T == nil {
+				e.stale("same(): untyped argument")
+			}
+			switch u := t.T.Underlying().(type) {
+			case *types.Map:
+				kv, kh := x.regMap(u)
+				keys = []string{kv, kh}
+			case *types.Slice:
+				keys = []string{x.regElem(u.Elem())}
+			default:
+				e.stale("same(): %s is neither a map nor a slice", t.T)
+			}
+		case *ast.SelectorExpr:
+			t := e.expr(a.X)
+			if t.T == nil {
+				e.stale("same(): untyped argument")
+			}
+			sT, stT := structOf(t.T)
+			if sT == nil {
+				e.stale("same(): not a struct")
+			}
+			f := findField(sT, a.Sel.Name)
+			if f == nil {
+				e.stale("same(): no field %s", a.Sel.Name)
+			}
+			keys = []string{x.regField(stT, f)}
+		default:
+			e.stale("same(mapof(m)), same(elems(s)) or same(p.f)")
+		}
+		var cs []string
+		for _, k := range keys {
+			now := x.memTerm(e.st, k, x.memSort[k])
+			was := x.memTerm(e.old, k, x.memSort[k])
+			if now.S != was.S {
+				cs = append(cs, app("=", now.S, was.S))
+			}
+		}
+		return Term{S: and(cs...), Sort: "Bool", T: boolT}
 	case "tag":
 		argN(1)
 		a := e.expr(n.Args[0])
@@ -967,7 +1025,67 @@ func (e *SpecEnv) applySpec(sd *SpecDef, args []Term) Term {
 	inner.scope = nil
 	inner.results = nil
 	inner.depth = e.depth + 8
+	if !sd.Opaque {
+		r := inner.expr(sd.Body)
+		r.T = retT
+		return r
+	}
+	// opaque: expand once to learn which memories the body reads (and, outside quantifiers, to supply the definition)
+	saved := x.memReads
+	x.memReads = map[string]Term{}
 	r := inner.expr(sd.Body)
-	r.T = retT
-	return r
+	reads := x.memReads
+	x.memReads = saved
+	if saved != nil {
+		for k, v := range reads {
+			saved[k] = v
+		}
+	}
+	if !sd.opaqueDone {
+		sd.opaqueDone = true
+		for k := range reads {
+			sd.opaqueKeys = append(sd.opaqueKeys, k)
+		}
+		sort.Strings(sd.opaqueKeys)
+	} else {
+		have := map[string]bool{}
+		for _, k := range sd.opaqueKeys {
+			have[k] = true
+		}
+		for k := range reads {
+			if !have[k] {
+				panic(unsupported{"opaque spec " + sd.Name + " reads memory " + k + " in one application and not in another"})
+			}
+		}
+	}
+	name := "opq!" + sd.Name
+	var sorts, as []string
+	for _, p := range sd.Params {
+		a := inner.names[p.Name]
+		sorts = append(sorts, a.Sort)
+		as = append(as, a.S)
+	}
+	for _, k := range sd.opaqueKeys {
+		var t Term
+		if k == "alloc!" {
+			t = e.st.alloc
+		} else if rt, ok := reads[k]; ok {
+			t = rt
+		} else {
+			t = x.memTerm(e.st, k, x.memSort[k])
+		}
+		sorts = append(sorts, t.Sort)
+		as = append(as, t.S)
+	}
+	rs := x.ctx.sortOf(retT)
+	x.ctx.declOnce(name, fmt.Sprintf("(declare-fun %s (%s) %s)", name, strings.Join(sorts, " "), rs))
+	appT := Term{S: app(name, as...), Sort: rs, T: retT}
+	if e.nbind == 0 {
+		cur := e.st
+		if e.cur != nil {
+			cur = e.cur
+		}
+		cur.assume(app("=", appT.S, r.S))
+	}
+	return appT
 }
